@@ -15,6 +15,10 @@
 
 pub struct Tok(pub u8);
 
+/// false in the `plain` build, where the token has no destructor and the ledger therefore sees no destructor runs:
+/// obligations about destructor counts are skipped there (they are decided in the default build)
+pub const TRACK: bool = cfg!(not(feature = "plain"));
+
 pub struct Ledger {
     /// destructor runs per id
     pub drops: [u8; 256],
